@@ -5,7 +5,7 @@ META = dict(
     explanation="compareRanks (amd64 uint64 fast path and the portable loop) on fully symbolic results against the lexicographic rank order; "
                 "Merger.Get/mergedGet for arbitrary probe orders against the stable global order; PassMerger with partial first/last chunks; sliceChunks.",
     functions=["fzf.compareRanks (result_x86.go)", "compareRanks of result_others.go (tag-stripped copy)", "fzf.NewMerger", "fzf.(*Merger).Get", "fzf.(*Merger).mergedGet",
-               "fzf.PassMerger", "fzf.(*Merger).FindIndex", "fzf.CountItems", "fzf.(*Matcher).sliceChunks"],
+               "fzf.PassMerger", "fzf.(*Merger).FindIndex", "fzf.CountItems", "fzf.(*Matcher).sliceChunks", "fzf.(*Matcher).Loop / scan (coroutine / inline workers), sort.Sort(ByRelevance)"],
     outside=["that each partition's list really is sorted (sort.Sort on ByRelevance)", "goroutine scheduling and channel hand-off in Matcher.scan", "list sizes beyond the bounds",
              "buildResult's positional sort keys (not built yet)"],
     models=["unsafe uint64 load over [4]uint16 = little-endian concatenation of the four cells"],
@@ -25,4 +25,8 @@ def suites(tier):
         jobs.append(dict(id=jid("pass", cfg), func="zzH_C04_pass", cfg=cfg))
     cfg = dict(chunks=12 if q else 70, parts=5 if q else 32)
     jobs.append(dict(id=jid("slice", cfg), func="zzH_C04_slice", cfg=cfg))
-    return [src_suite("src", jobs, chunkSize=3)]
+    # order of the published list after sort toggles / query edits with the per-chunk cache in play
+    # (one full chunk of 10, queryCacheMax = 2): --no-sort results stay in input order
+    cfg = dict(tail=0, initial=10, steps=3 if q else 4, symbolic=0)
+    ljobs = [dict(id=jid("loop", cfg), func="zzH_C08_loop", cfg=cfg, go_inline=True, coroutine_funcs=["Loop"])]
+    return [src_suite("src", jobs, chunkSize=3), src_suite("loop", ljobs, chunkSize=10)]
